@@ -49,7 +49,7 @@ def gen_cases(tier: str, seed: int):
     rng = np.random.default_rng([seed, 15])
     for i in range(n):
         adapters, stager = [([], None), (["step"], None), (["step", "var"], [2, 1, 1, 2.0]), (["var"], [2, 0, 0, 2.0])][i % 4]
-        mode = ["seq", "seq-userdir", "par", "par-signal", "par-userdir", "seq"][i % 6]
+        mode = ["seq", "seq-userdir", "par", "par-signal", "par-userdir", "par-signal-parent", "seq-userdir"][i % 7]
         cfg = {"n_chain": int(rng.integers(2, 4)), "n_warm": int(rng.choice([3, 4, 6])) if adapters else int(rng.choice([0, 2])),
                "n_main": int(rng.choice([2, 3, 5])), "adapters": adapters, "stager": stager, "seed": int(rng.integers(0, 10**6)),
                "model_seed": int(rng.integers(0, 100)), "dim": int(rng.integers(1, 4)), "trace": [["pos"], ["pos", "scalars"], ["energy"]][i % 3],
@@ -90,13 +90,34 @@ def flatten(out, cfg) -> dict:
     return flat
 
 
-def run_inproc(cfg, workdir):
-    from mv import c13, samp  # noqa: F401
+FLUSH_LOG: list = []
 
-    res = c13.run_with_alarm(cfg, workdir, 120)
+
+def run_inproc(cfg, workdir):
+    import time
+
+    from mv import c13, samp
+
+    # observe memmap flushes (re-reading the files cannot: unflushed pages are visible through the page cache)
+    orig_flush = np.memmap.flush
+
+    def logged_flush(self):
+        FLUSH_LOG.append((str(getattr(self, "filename", "")), time.monotonic_ns()))
+        return orig_flush(self)
+
+    del FLUSH_LOG[:]
+    samp.CTX["interrupt_t"] = None
+    np.memmap.flush = logged_flush
+    try:
+        res = c13.run_with_alarm(cfg, workdir, 120)
+    finally:
+        np.memmap.flush = orig_flush
+    res["flush_log"] = list(FLUSH_LOG)
+    res["interrupt_t"] = samp.CTX.get("interrupt_t")
     out = res["out"]
     return {"exc": None if res["exc"] is None else (type(res["exc"]).__name__, str(res["exc"])), "recs": res["recs"],
             "flat": None if out is None else flatten(out, cfg), "call_log": res["call_log"], "kw": res["kw"],
+            "flush_log": res["flush_log"], "interrupt_t": res["interrupt_t"],
             "finals": None if out is None else [(int(getattr(s, "tag", -1)), np.array(s.pos), None if s.mom is None else np.array(s.mom)) for s in out.final_states],
             "types": dict(res["sampler_transitions"]["integration_transition"].statistic_types)}
 
@@ -160,10 +181,12 @@ def judge(obs, cfg, mode, point, ref, got, stages, types, udir):  # noqa: C901, 
     started = {(x["tag"], x["iter"]) for x in got["recs"] if x["kind"] == "start"}
     if any(i >= stage_end for (_t, i) in started):
         obs.violation(f"later-stage-started:{mode}", f"iterations of a later stage ran after the interrupt; {where}")
-    if fn != "trace" and (tag, it) in done:
+    if fn != "trace" and (tag, it) in done and mode != "par-signal-parent":
         obs.violation(f"interrupt-not-delivered:{mode}", f"the interrupted iteration completed; {where}")
     n_chain = cfg["n_chain"]
     lenient = {(tag, it)} | (started - done)
+    if mode == "par-signal-parent":
+        lenient = set()  # only the parent is interrupted: the workers finish the stage, every started iteration completes
     if mode == "par-signal":  # every worker is hit at an arbitrary point, possibly inside a trace function
         for c in range(n_chain):
             mine = [i for (t, i) in done if t == c]
@@ -211,6 +234,18 @@ def judge(obs, cfg, mode, point, ref, got, stages, types, udir):  # noqa: C901, 
             init = ref["init_pos"].get(ftag)
             if init is not None and not np.array_equal(pos, init):
                 obs.violation(f"final-state-position:{mode}", f"chain {ftag} completed no iteration but its final state left the initial position; {where}")
+    if udir is not None and got.get("interrupt_t") and mode.startswith("seq") and it in rows:
+        # the interrupted chain's memory maps must be flushed after the interrupt
+        t0 = got["interrupt_t"]
+        flushed = {Path(f).name for f, t in got.get("flush_log", []) if t > t0}
+        mine = [f"trace_{tag}_{key}.npy" if kind == "trace" else f"stats_{tag}_integration_transition_{key}.npy"
+                for (kind, key, c) in got["flat"] if c == tag]
+        obs.count("flush_checks", len(mine))
+        missing = [n for n in mine if n not in flushed]
+        if missing:
+            obs.violation(f"memmap-not-flushed-after-interrupt:{mode}",
+                          f"{len(missing)} of {len(mine)} memory maps of the interrupted chain were not flushed after the interrupt "
+                          f"(e.g. {missing[0]}); {where}")
     if udir is not None:
         files = sorted(Path(udir).glob("*.npy"))
         obs.count("npy_files_reread", len(files))
@@ -274,10 +309,19 @@ def run_case(case, obs) -> None:  # noqa: C901
                 Path(udir).mkdir()
                 icfg["memmap_dir"] = udir
                 icfg["force_memmap"] = True
-            if mode == "par-signal":
-                icfg["interrupt"]["signal"] = True
+            if mode in ("par-signal", "par-signal-parent"):
+                icfg["interrupt"]["signal"] = True if mode == "par-signal" else "parent"
                 got, err = run_child(icfg, workdir, timeout=25)
                 obs.count("real_sigint_runs")
+                if got is None and mode == "par-signal-parent":
+                    stuck = "_sample_chains_parallel" in err and "Timeout (" in err
+                    if stuck:
+                        obs.violation("parent-only-sigint:run-did-not-return", f"SIGINT to the parent process only (sent at {fn} call {idx} of chain "
+                                      f"{tag} iteration {it}): sample_chains did not return within the 20 s watchdog; {err[-600:]}")
+                    else:
+                        obs.inconc("child-run-hung-or-died")
+                        obs.sample({"child_failure_head": err[:1500], "child_failure_tail": err[-800:], "cfg": icfg})
+                    continue
                 if got is None:
                     stuck = "_sample_chains_parallel" in err and "multiprocessing/pool.py" in err and " in get" in err
                     if stuck and "KeyboardInterrupt" in err:
